@@ -85,6 +85,7 @@ package argmapper
 //@   ensures  result == nil && wfB(a)
 //@   ensures  [sets-lowercased-key] imp(v != nil, has(a.namedSub, lower(old(n))) && has(a.namedSub[lower(old(n))], st) && a.namedSub[lower(old(n))][st] == rvof(v))
 //@   ensures  [nil-ignored-others-kept] forall(k, string, s, string, imp(!(k == lower(old(n)) && s == st) || v == nil, has(a.namedSub[k], s) == old(has(a.namedSub[k], s)) && a.namedSub[k][s] == old(a.namedSub[k][s])))
+//@   ensures  [inner-maps-stable-or-fresh] forall(k, string, imp(has(a.namedSub, k), (old(has(a.namedSub, k)) && a.namedSub[k] == old(a.namedSub[k])) || fresh(a.namedSub[k])))
 //@   assigns  NamedM, NamedSubM
 //@   modifies a.namedSub, a.namedSub[lower(n)]
 
@@ -106,22 +107,23 @@ package argmapper
 //@   ensures  result == nil && wfB(a)
 //@   ensures  [sets] imp(v != nil, has(a.typedSub, dyntype(v)) && has(a.typedSub[dyntype(v)], st) && a.typedSub[dyntype(v)][st] == rvof(v))
 //@   ensures  [nil-ignored-others-kept] forall(t, reflect.Type, s, string, imp(!(t == dyntype(v) && s == st) || v == nil, has(a.typedSub[t], s) == old(has(a.typedSub[t], s)) && a.typedSub[t][s] == old(a.typedSub[t][s])))
+//@   ensures  [inner-maps-stable-or-fresh] forall(t, reflect.Type, imp(has(a.typedSub, t), (old(has(a.typedSub, t)) && a.typedSub[t] == old(a.typedSub[t])) || fresh(a.typedSub[t])))
 //@   assigns  NamedM, TypedSubM
 //@   modifies a.typedSub, a.typedSub[dyntype(v)]
 
 //@ func ConverterFunc$1
 //@   requires a != nil
-//@   ensures  result == nil && forall(x, *argBuilder, imp(x != a, x.convs == old(x.convs)))
+//@   ensures  result == nil && forall(x, *argBuilder, imp(x != a, x.convs == old(x.convs))) && (sref(a.convs) == sref(old(a.convs)) || fresh(a.convs))
 //@   assigns  argBuilder.convs, []*Func
 //@   modifies a, a.convs
-//@   loop 1 invariant forall(x, *argBuilder, imp(x != a, x.convs == old(x.convs)))
+//@   loop 1 invariant forall(x, *argBuilder, imp(x != a, x.convs == old(x.convs))) && (sref(a.convs) == sref(old(a.convs)) || fresh(a.convs))
 
 //@ func ConverterGen$1
 //@   requires a != nil
-//@   ensures  result == nil && forall(x, *argBuilder, imp(x != a, x.convGens == old(x.convGens)))
+//@   ensures  result == nil && forall(x, *argBuilder, imp(x != a, x.convGens == old(x.convGens))) && (sref(a.convGens) == sref(old(a.convGens)) || fresh(a.convGens))
 //@   assigns  argBuilder.convGens, []ConverterGenFunc
 //@   modifies a, a.convGens
-//@   loop 1 invariant forall(x, *argBuilder, imp(x != a, x.convGens == old(x.convGens)))
+//@   loop 1 invariant forall(x, *argBuilder, imp(x != a, x.convGens == old(x.convGens))) && (sref(a.convGens) == sref(old(a.convGens)) || fresh(a.convGens))
 
 //@ func FilterInput$1
 //@   requires a != nil
@@ -399,7 +401,7 @@ package argmapper
 //@   assigns  Func, argBuilder, NamedM, NamedSubM, TypedM, TypedSubM, []*Func, []ConverterGenFunc, ValueSet, Value, valueInternal, []*Value, map[string]*Value, map[reflect.Type]*Value, map[string]string, []string, []interface{}, reflect.StructField, []reflect.StructField, vpos, rvstore, rvfresh
 //@   modifies nothing
 //@   loop 1 invariant wfB(builder) && fresh(builder) && fresh(builder.named) && fresh(builder.namedSub) && fresh(builder.typed) && fresh(builder.typedSub) && !builder.redefining
-//@   loop 1 invariant (builder.convs == nil || fresh(builder.convs)) && (builder.convGens == nil || fresh(builder.convGens))
+//@   loop 1 invariant !old(allocated(builder.convs)) && !old(allocated(builder.convGens))
 //@   loop 1 invariant forall(k, string, imp(has(builder.namedSub, k), fresh(builder.namedSub[k]))) && forall(t, reflect.Type, imp(has(builder.typedSub, t), fresh(builder.typedSub[t])))
 //@   loop 1 invariant forall(i, int, imp(0 <= i && i < idx1, opts[i] != nil))
 //@   loop 1 invariant forall(i, int, k, string, imp(0 <= i && i < idx1 && setsNamed(opts[i], k) && forall(j, int, imp(i < j && j < idx1, !setsNamed(opts[j], k))), has(builder.named, k) && builder.named[k] == namedVal(opts[i])))
